@@ -295,7 +295,7 @@ fn case_generic<const QS: usize>(case: u64, seed: u64, steps: usize, want_sample
                         Err(_) => fail!("C16", "panic_in_receive", "receive() panicked"),
                         Ok(Err(Error::NotReady)) if arrival.is_empty() => {}
                         Ok(Err(e)) => fail!("C16", "receive_error", "receive() = {:?} with {} frames pending", e, arrival.len()),
-                        Ok(Ok(rb)) => {
+                        Ok(Ok(mut rb)) => {
                             let Some(head) = arrival.pop_front() else {
                                 fail!("C16", "receive_without_frame", "receive() returned a buffer although no frame was delivered");
                                 continue;
@@ -303,6 +303,20 @@ fn case_generic<const QS: usize>(case: u64, seed: u64, steps: usize, want_sample
                             let (id, len) = dev.borrow_mut().injected.remove(&head).unwrap_or((0, 0));
                             if rb.packet_len() != len || rb.packet() != frame_bytes(id, len).as_slice() {
                                 fail!("C16", "received_frame_wrong", "receive() returned packet_len {} (frame #{} has {} bytes); bytes equal: {}", rb.packet_len(), id, len, rb.packet() == frame_bytes(id, len).as_slice());
+                            }
+                            // the mutable view and the parsed header must describe the same frame
+                            let want = frame_bytes(id, len);
+                            let pm = catch_unwind(AssertUnwindSafe(|| {
+                                let _ = rb.header();
+                                rb.packet_mut().to_vec()
+                            }));
+                            match pm {
+                                Ok(pm) if pm == want => {}
+                                Ok(_) => fail!("C16", "received_frame_wrong", "RxBuffer::packet_mut() of frame #{} ({} bytes) differs from the frame the device wrote (header size {} negotiated)", id, len, expect_hdr),
+                                Err(_) => fail!("C16", "received_frame_wrong", "RxBuffer::packet_mut()/header() panicked for frame #{} ({} bytes, header size {} negotiated)", id, len, expect_hdr),
+                            }
+                            if rb.as_bytes().len() < expect_hdr + len {
+                                fail!("C16", "received_frame_wrong", "RxBuffer shorter than header + frame");
                             }
                             out.frames += 1;
                             oplog.push(format!("receive() -> frame #{} ({} bytes)", id, len));
